@@ -60,17 +60,23 @@ def decode_length(U, sz):
 
 
 @unit("C26", covers=[(AXML, "StringBlock._decode8"), (AXML, "StringBlock._decode16"), (AXML, "StringBlock.getString")],
-      params=[{"utf8": True, "n": n} for n in (0, 1, 3)] + [{"utf8": False, "n": n} for n in (0, 1, 2)], samples=40)
-def decode_slices(U, utf8, n):
-    """the bytes decoded are exactly the declared ones; the terminator is required"""
+      params=[{"utf8": True, "n": n} for n in (0, 1, 3)] + [{"utf8": False, "n": n} for n in (0, 1, 2)]
+      + [{"utf8": True, "n": 3, "cw": cw, "bw": bw} for cw, bw in ((1, 2), (2, 1), (2, 2))]
+      + [{"utf8": True, "n": 130, "cw": 1, "bw": 2}, {"utf8": False, "n": 2, "cw": 2}], samples=40)
+def decode_slices(U, utf8, n, cw=1, bw=1):
+    """the bytes decoded are exactly the declared ones; the terminator is required.  cw / bw: width (in units) of the
+    character-count and byte-count prefixes (the two prefixes of a UTF-8 string have independent widths)"""
     m = U.mod(AXML)
     payload = U.bytes("p", n if utf8 else 2 * n)
     term_ok = U.choice("term", [True, False])
     pl = _items(payload)
+    nchars = 43 if n == 130 else n      # e.g. 43 three-byte characters + one ASCII: fewer than 128 chars, 130 bytes
     if utf8:
-        data = [n, n] + pl + [0 if term_ok else 0x41, 0x42]
+        pre = ([nchars] if cw == 1 else [0x80 | (nchars >> 8), nchars & 0xFF]) + ([n] if bw == 1 else [0x80 | (n >> 8), n & 0xFF])
+        data = pre + pl + [0 if term_ok else 0x41, 0x42]
     else:
-        data = [n, 0] + pl + ([0, 0] if term_ok else [0x41, 0]) + [0x42]
+        pre = [n, 0] if cw == 1 else [0, 0x80, n, 0]
+        data = pre + pl + ([0, 0] if term_ok else [0x41, 0]) + [0x42]
     buf = SymBytes(data) if U.mode == "sym" else bytes(data)
     s = _sb(m, buf, utf8, [0])
     seen = []
@@ -82,7 +88,7 @@ def decode_slices(U, utf8, n):
     o = U.call(s.getString, 0)
     if term_ok:
         U.ensures("decoder receives exactly the declared bytes in the pool's encoding, result returned",
-                  And(o.ok and o.value == "DECODED" and len(seen) == 1 and seen[0][1] == ("utf-8" if utf8 else "utf-16") and seen[0][2] == n,
+                  And(o.ok and o.value == "DECODED" and len(seen) == 1 and seen[0][1] == ("utf-8" if utf8 else "utf-16") and seen[0][2] == (nchars if utf8 else n),
                       Eq(_items(seen[0][0]), pl) if seen else False), exc=repr(o.exc))
     else:
         U.ensures("a string without terminator is not returned", (o.ok and o.value == "") or o.raised(m.ResParserError), got=o.value)
@@ -95,7 +101,8 @@ def _rand_tree(rng, depth=0):
     e = W.Elem(rng.choice(names))
     for _ in range(rng.randint(0, 3)):
         kind = rng.choice(["str", "int", "hex", "bool", "ref", "dimen", "float"])
-        v = {"str": lambda: rng.choice(["", "hello", "com.example.App", ".Main", "üñí", "a b", "x" * 40, "\U0001F600z"]),
+        v = {"str": lambda: rng.choice(["", "hello", "com.example.App", ".Main", "üñí", "a b", "x" * 40, "\U0001F600z", "\u65e5" * 50, "\xe9" * 100, "x" * 200,
+                                         "\u65e5" * 130]),
              "int": lambda: rng.choice([0, 1, -1 & 0xFFFFFFFF, 0x7FFFFFFF, 0x80000000, rng.randrange(1 << 32)]),
              "hex": lambda: rng.randrange(1 << 32), "bool": lambda: rng.random() < 0.5,
              "ref": lambda: rng.choice([0x7F010001, 0x01010003, rng.randrange(1 << 32)]),
